@@ -1165,7 +1165,7 @@ func c05Sizes(thorough bool) []int {
 // phases
 
 func c05Parallel(c *Ctx, n int, f func(i int)) {
-	workers := 8
+	workers := 4
 	if c.Thorough() {
 		workers = 16
 	}
